@@ -28,6 +28,11 @@ def dispatch (op : String) (f : List Text) : String :=
     s!"{opt (Semver.calcLatestPatch cur avail)} {opt (Semver.calcLatestMinor cur avail)} {opt (Semver.calcLatestMajor cur avail)}"
   | "checker.pure", eco :: latest :: tagres :: cur :: versions => checkerPure eco latest tagres cur versions
   | "spec.diag", eco :: latest :: tagres :: cur :: versions => specDiag eco latest tagres cur versions
+  | "ca.run", f => caRun f
+  | "http.fetch", f => httpFetch f
+  | "http.tagsha", f => httpTagSha f
+  | "bump.ok", label :: cur :: t :: vs => tf (Spec.BumpSpec.acceptable (String.ofList label) cur t vs)
+  | "bump.due", label :: cur :: vs => tf (Spec.BumpSpec.due (String.ofList label) cur vs)
   | "spec.judge", [eco, spec, v] =>
     match String.ofList eco with
     | "npm" | "pnpm" | "jsr" => s!"{specNpmSat spec v} {specNpmFrag spec}"
